@@ -5,6 +5,7 @@ package main
 import (
 	"bytes"
 	"encoding/binary"
+	"strings"
 
 	"github.com/miekg/dns"
 	"github.com/semihalev/sdns/middleware"
@@ -98,13 +99,27 @@ func scripted(w middleware.Transport, raw []byte, entry string) bool {
 		_, _ = w.Write(progReply(raw, ec))
 		panic("c10: scripted handler panic after write")
 	case kWriteMsg:
-		m := new(dns.Msg)
-		m.Id = binary.BigEndian.Uint16(raw[0:2])
-		m.Response = true
-		m.Rcode = int(raw[13] & 0xF)
-		_ = w.WriteMsg(m)
+		_ = w.WriteMsg(progMsg(raw))
 	}
 	return true
+}
+
+// progMsg is the message the WriteMsg kind hands to the transport: raw[13]
+// TXT records "x. 60 IN TXT <255 x fill>", fill = 'a' + raw[14]%26 (12 + 269k
+// bytes packed: the Msg path for replies of any size).
+func progMsg(raw []byte) *dns.Msg {
+	m := new(dns.Msg)
+	m.Id = binary.BigEndian.Uint16(raw[0:2])
+	m.Response = true
+	fill := byte('a')
+	if len(raw) > 14 {
+		fill = 'a' + raw[14]%26
+	}
+	for i := 0; i < int(raw[13]); i++ {
+		m.Answer = append(m.Answer, &dns.TXT{Hdr: dns.RR_Header{Name: "x.", Rrtype: dns.TypeTXT, Class: dns.ClassINET, Ttl: 60},
+			Txt: []string{strings.Repeat(string(rune(fill)), 255)}})
+	}
+	return m
 }
 
 // ---- the independent judge -------------------------------------------------
@@ -130,8 +145,8 @@ func ownReply(sent, got []byte) bool {
 	case kNone, kPanic, kLeaseAbandon, kDecline:
 		return false
 	case kWriteMsg:
-		return len(got) == 12 && got[0] == sent[0] && got[1] == sent[1] && got[2] == 0x80 &&
-			got[3] == sent[13]&0xF && bytes.Equal(got[4:], make([]byte, 8))
+		want, err := progMsg(sent).Pack()
+		return err == nil && bytes.Equal(got, want)
 	}
 	want := progReply(sent, 0)
 	if len(got) != len(want) {
